@@ -21,7 +21,7 @@ from ..fxsym import interp as ix
 from ..fxsym.capture import capture
 from ..fxsym.programs import build, spec_name
 from ..par import run_tasks
-from ..report import CONCRETE, INCONCLUSIVE, Report, describe_function
+from ..report import CONCRETE, INCONCLUSIVE, Report, describe_function, lazy
 from ..sym.runner import discharge
 from ..sym.scalar import Ctx, SBool
 from ..sym.tensor import Session, STensor
@@ -305,8 +305,14 @@ def task_nondestructive(mname: str, order: Tuple[str, ...], fkey: str) -> List[D
     y0 = m(*x)
     (y0.sum()).backward()
     g0 = {k: v.grad.clone() for k, v in m.named_parameters()}
-    m.zero_grad()
+    # the original KEEPS its accumulated gradients while it is transformed: they are part of the state a transform must not touch
     sd0 = {k: v.detach().clone() for k, v in m.state_dict().items()}
+
+    def grads(mod: Any) -> Dict[str, Any]:
+        return {k: (None if v.grad is None else v.grad.clone()) for k, v in mod.named_parameters()}
+
+    def same_grads(a: Dict[str, Any], b: Dict[str, Any]) -> bool:
+        return a.keys() == b.keys() and all((a[k] is None) == (b[k] is None) and (a[k] is None or torch.equal(a[k], b[k])) for k in a)
     bad = []
     cur = m
     try:
@@ -314,7 +320,10 @@ def task_nondestructive(mname: str, order: Tuple[str, ...], fkey: str) -> List[D
             prev = cur
             prev_backends = list(getattr(prev, "backends", []))
             prev_sd = {k: v.detach().clone() for k, v in prev.state_dict().items()}
+            prev_g = grads(prev)
             cur = chain((step,), fkey)(prev)
+            if not same_grads(grads(prev), prev_g):
+                bad.append(f"{step} changed the accumulated gradients of its input")
             if cur is prev:
                 bad.append(f"{step} returned its argument")
             if list(getattr(prev, "backends", [])) != prev_backends:
@@ -341,8 +350,9 @@ def task_nondestructive(mname: str, order: Tuple[str, ...], fkey: str) -> List[D
     for k, v in m.state_dict().items():
         if not torch.equal(v, sd0[k]):
             bad.append(f"original {k} changed")
-    if any(p.grad is not None and p.grad.abs().sum() > 0 for p in m.parameters()):
-        bad.append("backward through the transformed module wrote gradients into the original")
+    if not same_grads(grads(m), g0):
+        bad.append("transforming / running the transformed module changed the gradients held by the original")
+    m.zero_grad()
     y1 = m(*x)
     (y1.sum()).backward()
     if not torch.equal(y0, y1) or any(not torch.equal(g0[k], v.grad) for k, v in m.named_parameters()):
@@ -489,7 +499,7 @@ def run(rep: Report, only: str = "") -> None:
     if only:
         tasks = [t for t in tasks if only in repr(t[1]) or only in t[0].__name__]
     rep.extend(run_tasks(tasks))
-    rep.functions = [describe_function(f) for f in (us._order_backends, tu._compose_backends, tu.apply_transform, us.unit_scale)]
+    rep.functions = [describe_function(f) for f in (lazy(lambda: us._order_backends), lazy(lambda: tu._compose_backends), lazy(lambda: tu.apply_transform), lazy(lambda: us.unit_scale))]
     rep.bounds = {"_order_backends": f"lists of length 1..{5 if thorough else 4} whose backend kinds are solver-selected (at most one unit-scaling and one quantisation backend)",
                   "orders": "every order of {unit_scale, simulate_format} on mlp / residual block / attention block, formats fp8-nearest and lossless (+ mixed stochastic, thorough), "
                             "with and without calling the intermediate module before nesting; graphs from the real TorchDynamo path; the two orders' results unified for all data and dims",
